@@ -720,8 +720,40 @@ pub fn check_journal(events: &[Event], prune_points: &[(usize, Vec<u32>, Vec<u32
             }
         }
     }
-    // C12: prune through the real journal thread
-    for (idx, live_jobs, live_workers) in prune_points.iter().take(3) {
+    // C12: prune through the real journal thread - at the moments of the real prune requests of the
+    // run (live sets computed by the real handler) and at two further record boundaries with the
+    // live sets the handler would compute there: connected workers, and the jobs that are still in
+    // the server's memory (all unfinished ones; completed ones only if they were not forgotten,
+    // which the journal does not record - both choices are valid histories)
+    let mut prune_points: Vec<(usize, Vec<u32>, Vec<u32>)> = prune_points.iter().take(3).cloned().collect();
+    if events.len() > 6 {
+        for _ in 0..2 {
+            let idx = rng.range(3, events.len() as u64) as usize;
+            let keep_completed = rng.chance(40, 100);
+            let mut workers: BTreeSet<u32> = BTreeSet::new();
+            let mut jobs: BTreeSet<u32> = BTreeSet::new();
+            for e in &events[..idx] {
+                match &e.payload {
+                    EventPayload::WorkerConnected(w, _) => {
+                        workers.insert(w.as_num());
+                    }
+                    EventPayload::WorkerLost(w, _) => {
+                        workers.remove(&w.as_num());
+                    }
+                    EventPayload::Submit { job_id, .. } | EventPayload::JobOpen(job_id, _) => {
+                        jobs.insert(job_id.as_num());
+                    }
+                    EventPayload::JobCompleted(job_id) if !keep_completed => {
+                        jobs.remove(&job_id.as_num());
+                    }
+                    _ => {}
+                }
+            }
+            prune_points.push((idx, jobs.into_iter().collect(), workers.into_iter().collect()));
+            rep.c("prunes_at_lab_chosen_moments", 1);
+        }
+    }
+    for (idx, live_jobs, live_workers) in prune_points.iter() {
         let idx = (*idx).min(events.len());
         let pf = dir.join("pruned.journal");
         // the last m records before the prune request are still in the journal thread's write
